@@ -46,10 +46,19 @@ def run_case(case, kind, keep=False):
         os.makedirs(vdir)
         shutil.copy(os.path.join(VERIF, "known_findings.json"), vdir)
         try:
-            apply_edits(repo, case["edits"])
+            if case.get("patch"):
+                pf = os.path.join(HERE, case["patch"])
+                ap = subprocess.run(["git", "apply", "--whitespace=nowarn", pf], cwd=repo, capture_output=True, text=True)
+                if ap.returncode != 0:
+                    raise RuntimeError("patch does not apply: " + ap.stderr[-300:])
+                import re as _re
+                files = _re.findall(r"^\+\+\+ b/(\S+\.go)", open(pf).read(), _re.M)
+                pkgs = sorted({"./" + os.path.dirname(f) for f in files})
+            else:
+                apply_edits(repo, case["edits"])
+                pkgs = sorted({"./" + os.path.dirname(e[0]) for e in case["edits"]})
         except Exception as ex:
             return name, "ERROR", f"edit failed: {ex}"
-        pkgs = sorted({"./" + os.path.dirname(e[0]) for e in case["edits"]})
         b = subprocess.run(["go", "build"] + pkgs, cwd=repo, env=ENV, capture_output=True, text=True)
         if b.returncode != 0:
             return name, "ERROR", "does not compile: " + b.stderr[-400:]
